@@ -218,6 +218,9 @@ def run_case(case, rep, record=True):
             rep.sample(dict(x=case["x"]["kind"], y=(case["y"] if case["y"] == "same" else case["y"]["kind"]),
                             layout_x=layout_sig(specX), layout_y=layout_sig(specY) if specY else None,
                             n_ops=len(concrete), schedule=[s for s in sched if s][:6]))
+    except walk.SourceRejected as e:
+        if record:
+            rep.count(f"source-rejected({e.owner})")
     except Failure as f:
         fail(f)
     except Exception as e:
@@ -304,6 +307,8 @@ def model_run(case, with_foreign, build_y=None):
             check_mask(h, null, f"after {op}")
             if res == "diverged":
                 return Failure("diverged", f"state diverges from the reference model: {h.diverged}", bucket="diverged")
+    except walk.SourceRejected:
+        return None
     except Failure as f:
         return f
     except Exception as e:
